@@ -1386,7 +1386,9 @@ impl<'a, SE: extensions::ShellExtensions> WordExpander<'a, SE> {
                         // lie before the start offset, and it is not allowed for arrays. An
                         // offset at or past the end yields nothing before the length matters.
                         let end = expanded_parameter_len + expanded_length;
-                        if !expanded_parameter.from_array && offset_out_of_range {
+                        if expanded_parameter.undefined
+                            || (!expanded_parameter.from_array && offset_out_of_range)
+                        {
                             expanded_offset
                         } else if expanded_parameter.from_array || end < expanded_offset {
                             return Err(error::ErrorKind::CheckedExpansionError(std::format!(
